@@ -434,7 +434,10 @@ impl KOp {
                 if r == -libc::EAGAIN {
                     return Outcome::NotReady;
                 }
-                if self.opcode == OP_SENDMSG_ZC && r >= 0 {
+                if self.opcode == OP_SENDMSG_ZC {
+                    if r < 0 {
+                        crate::probe("zerocopy-send-failed-with-notification");
+                    }
                     self.zc_notif_owed = true;
                     return Outcome::More(r, 0);
                 }
@@ -617,7 +620,12 @@ impl KOp {
         if r == -libc::EAGAIN {
             return Outcome::NotReady;
         }
-        if self.opcode == OP_SEND_ZC && r >= 0 {
+        // (a zero-copy send that fails when it is issued is reported like one that succeeds: the result with the
+        // MORE flag, then the notification: io_uring/net.c io_send_zc sets IORING_CQE_F_MORE whatever `ret` is)
+        if self.opcode == OP_SEND_ZC {
+            if r < 0 {
+                crate::probe("zerocopy-send-failed-with-notification");
+            }
             self.zc_notif_owed = true;
             return Outcome::More(r, 0);
         }
